@@ -246,7 +246,7 @@ void vfam_init(struct vfam *f, int maxdepth);
 V *vfam_get(const struct vfam *f, int depth, uint64_t idx);
 
 /* ---------- explicit-state BFS over operation histories (replayed on fresh objects) ---------- */
-#define BFS_MAXD 12
+#define BFS_MAXD 20
 struct bfs_cb
 {
 	void *(*fresh)(void);                        /* new object + model in the initial state */
@@ -261,6 +261,7 @@ struct bfs_stats
 	long states, transitions, max_depth_done;
 };
 extern int bfs_cur_hist[BFS_MAXD + 1], bfs_cur_n; /* the history being executed (for describe) */
+extern int bfs_shard_mode;
 void bfs_describe(const struct bfs_cb *cb, sb_t *out);
 /* explores to maxdepth; first_op_shard: histories are partitioned over shards by their first operation */
 void bfs_run(const struct bfs_cb *cb, int maxdepth, long maxstates, struct bfs_stats *st);
